@@ -21,6 +21,7 @@ EXPLANATION = (
     "equality test of its consumed character against the space, never a newline."
     ' Added after seed round 3: (9) ACCUM on calc_coords / line_width; (10) OFFSTEP - a text offset is advanced by a constant only where the character stepped over is known to be one byte (a find() position of the newline, or under a text[x] == space test); (11) a segment cut with calc_trim_text declares end_col - start_col - pad_left - pad_right columns (linear forms compared).'
     ' Round 4: (12) LOOPFRESH on the per-line state of _calculate_trimmed_segments / apply_text_layout; (13) a segment measured with calc_width is measured over its own offsets; (14) the str and the UTF-8 column searches leave their scan loop under the same condition.'
+    ' Round 6: the width helpers the layout relies on are checked here too (shared with C11): (16) within_double_byte tests exactly the lead / trail byte ranges of the double-byte encodings; (17) calc_width counts str text per character, never as the plain offset difference; (18) invalid UTF-8 is measured with decode_one as the offset functions walk it.'
 )
 NOT_DECIDED = (
     "Completeness and non-duplication of characters as a value statement, that no laid-out line spans a hard newline, fill-optimality of 'any' wrapping, break-at-space-whenever-possible, "
@@ -354,6 +355,11 @@ def rule_segment_positive(ctx: Ctx, clause: str = "C03.15") -> RuleResult:
     return rr
 
 
+def _as(rr, clause):
+    rr.clause = clause
+    return rr
+
+
 def run(ctx: Ctx):
     p = ctx.p
     # the text-consuming loops of the layout class (calc_pos's search loop pops from the lists its test reads and is
@@ -377,6 +383,9 @@ def run(ctx: Ctx):
         rule_segment_width(ctx),
         rule_segment_positive(ctx),
         c11.rule_scan_exit_twins(ctx, "C03.14"),
+        _as(c11.rule_dbe_ranges(ctx, "C03.16"), "C03.16"),
+        _as(c11.rule_str_widths_per_character(ctx), "C03.17"),
+        _as(c11.rule_one_decoder(ctx), "C03.18"),
         loopfresh.run_loopfresh(p, "C03.12", "C03", floor=6),
         offstep.run_offstep(p, "C03.10", [f.qualname for f in p.modules[TL].functions], floor=5),
     ]
